@@ -32,6 +32,14 @@ TRUSTED = [
     "'always returns' for the rejection samplers is a probability-one statement: the theorems say the loop returns the "
     "first in-range draw as soon as a batch contains one; on the code every call is observed to return within 6 s",
 ]
+TRUSTED += [
+    "epsilon below the property's range [1e-4, inf] is not generated (observed outside the range, not reported: LaplaceBoundedDomain's "
+    "acceptance probability is ~epsilon, so epsilon = 1e-10 effectively never returns; GeometricFolded(epsilon=1e-300) raises TypeError "
+    "when the noise exceeds 2^63); huge finite epsilons up to 1.7e308 ARE generated for every mechanism",
+    "hang detector: every call runs under an interval timer, and the multi-draw samplers (PermuteAndFlip, bernoulli_neg_exp) draw "
+    "from a scripted prefix (extremes 0, 1-2^-53, 1/2, 2^-53 at every position) followed by a pseudo-random continuation that raises "
+    "after 200000 draws",
+]
 UNPROVED = [
     "double rounding: that the float fold (modulo step + reflections on doubles) stays in [lower, upper] and stops is "
     "observed on every run, the theorems fold_in_bounds / fold_terminates are over R; truncate, the rejection test, "
@@ -43,7 +51,10 @@ RULE = ("configurations: epsilon in {inf, 1, 0.1, 1e-4} u loguniform[1e-4,50], d
         "in {0, noise/10^3..10^6 (very narrow), ~noise, 10^3 noise, +-inf}; inputs at / inside / just outside / 10^3 widths / 1e9 / "
         "1e12 outside the bounds; scripted uniforms from {0, 1-2^-53, 1/2, 2^-53, 1/2 +- 1ulp, break-point +- ulps, random}; "
         "non-trivial = the raw noisy value left the domain (truncation / fold / rejection / clamp actually acted) or a "
-        "degenerate parameter; distinct by (mechanism, domain kind, input kind, output)")
+        "degenerate parameter; distinct by (mechanism, domain kind, input kind, output). Selection / looping samplers: uniform "
+        "extremes at every draw position (index draw and every Bernoulli coin, gamma = 0 and integer gammas), zero-measure candidates "
+        "(top / all but one, utility gaps up to 1e6 sens/eps, eps = inf, sens = 0), epsilon in [500, 1.7e308] for every mechanism; "
+        "LaplaceBoundedDomain with bounds and input of very different magnitudes and scripted noise landing on / a few ulps next to a bound")
 
 MECH = dp.mechanisms
 INF = math.inf
@@ -54,6 +65,28 @@ TIMEOUT = 6.0
 # ------------------------------------------------------------------------------------------- infrastructure
 class Hang(Exception):
     pass
+
+
+class DrawLimit(Exception):
+    """private: a sampler consumed more uniforms than any terminating run plausibly needs"""
+
+
+class PrefixRandom(seams.ScriptedSystemRandom):
+    """scripted prefix (extremes at chosen draw positions), then a SplitMix64 continuation; raises DrawLimit after `limit`
+    draws, so that a sampler that never stops becomes an observation"""
+
+    def __init__(self, prefix=(), seed=0, limit=200000):
+        super().__init__(uniforms=list(prefix))
+        self.prefix = list(prefix)
+        self.sm = gen.SplitMix64(int(seed))
+        self.limit = limit
+        self.n = 0
+
+    def random(self):
+        self.n += 1
+        if self.n > self.limit:
+            raise DrawLimit()
+        return self.prefix[self.n - 1] if self.n <= len(self.prefix) else self.sm.u01()
 
 
 def _alarm(signum, frame):
@@ -71,7 +104,8 @@ def run_timed(fn, seconds=TIMEOUT):
                 v = fn()
         signal.setitimer(signal.ITIMER_REAL, 0)
         return "ok", v
-    except Hang:
+    except (Hang, DrawLimit):
+        signal.setitimer(signal.ITIMER_REAL, 0)
         return "hang", None
     except seams.ScriptExhausted as e:
         signal.setitimer(signal.ITIMER_REAL, 0)
@@ -640,6 +674,32 @@ def k_selection(ctx, r, n, lines, todo):
             todo.append(("binary", (eps, value, u), kind, {"a": 0, "b": 1}.get(out, repr(out)) if kind == "ok" else repr(out)))
 
 
+def k_bernoulli(ctx, r, n, lines, todo):
+    """bernoulli_neg_exp itself under scripted streams (extremes at every position) vs the model's coin, exact"""
+    from diffprivlib.mechanisms.base import bernoulli_neg_exp
+    for _ in range(n):
+        g = r.choice([0.0, 0.0, 1.0, 2.0, 3.0, 0.5, 2.0 ** -53, r.uniform(0, 5), r.uniform(0, 1), 7.0, 1e-300])
+        us = gen_prefix(r, r.randint(1, 8)) + [r.u01() for _ in range(120)]
+        rng = seams.ScriptedSystemRandom(uniforms=us)
+        kind, out = run_timed(lambda: bernoulli_neg_exp(g, rng))
+        lines.append(" ".join(["bern", fl(g)] + [fl(u) for u in us]))
+        todo.append(("bern", (g, us[:10]), kind, (int(out), rng.n_uniform) if kind == "ok" else repr(out)))
+
+
+def cmp_bern(ctx, item, line):
+    _, inp, kind, out = item
+    w = line.split()
+    if kind == "exhausted":
+        ok = w[0] == "hang"
+    else:
+        ok = kind == "ok" and w[0] == "ok" and (int(w[1]), int(w[2])) == out
+    if not ok:
+        ctx.disagree("bernoulli_neg_exp", inp, line, [kind, out])
+        return False
+    ctx.case(("bern", inp[0], out if kind == "ok" else None))
+    return True
+
+
 def cmp_selection(ctx, item, line):
     unit, inp, kind, out = item
     w = line.split()
@@ -719,6 +779,10 @@ def cmp_exact(ctx, item, line):
 
 
 # ------------------------------------------------------------------------------------------- direct sweeps (S)
+FIXED_DIRECT_LANDING = [
+    ("LaplaceBoundedDomain", {"eps": 1.0, "sens": 1e6, "lower": -2e6, "upper": 0.3}, -979654.2425746154,
+     {"uniforms": [0.5, ONE_M, 0.0, 0.0] + [0.25] * 40}),
+]
 FIXED_DIRECT = [
     # regression witnesses of the repaired defects (known_findings.json, fixed)
     ("LaplaceFolded", {"eps": 1.0, "sens": 1.0, "lower": 3.0, "upper": 3.0}, 1.0, {"seed": 0}),                   # 8f34e8d
@@ -736,10 +800,51 @@ FIXED_DIRECT = [
 ]
 
 
+def gen_landing(r):
+    """LaplaceBoundedDomain with bounds / input of very different magnitudes and scripted noise that lands exactly on, or a few
+    ulps next to, a bound: the accepted draw must still satisfy lower <= out <= upper after the final rounding"""
+    big = r.choice([1e3, 1e6, 2e6, 1e9, r.loguniform(1e2, 1e10)])
+    small = r.choice([0.3, 0.1, 1e-3, 7.7, r.uniform(-1, 1), 0.0])
+    if r.chance(0.5):
+        lower, upper = -big, small
+    else:
+        lower, upper = -small, big
+    if lower >= upper:
+        lower, upper = -big, big / 3
+    value = lower + (upper - lower) * r.uniform(0.05, 0.95)
+    cfg = {"eps": r.choice([1.0, 0.5, 3.0, r.loguniform(0.05, 20.0)]), "delta": 0.0, "sens": r.choice([big, big / 2, 1e6, (upper - lower) / 3]),
+           "lower": lower, "upper": upper, "dk": "landing"}
+    try:
+        with warnings.catch_warnings():
+            warnings.simplefilter("ignore")
+            scale = float(build("LaplaceBoundedDomain", cfg, 0)._find_scale())
+    except Exception:  # noqa
+        return None
+    if not (scale > 0 and math.isfinite(scale)):
+        return None
+    b = r.choice([lower, upper, small if lower == -big else -small])
+    if b > value:
+        u2, u1 = ONE_M, 1.0 - math.exp(-(b - value) / scale)       # cos(pi u2) = -1: noise = -scale*log(1-u1) > 0
+    else:
+        u2, u1 = 0.0, 1.0 - math.exp((b - value) / scale)           # cos(0) = 1: noise = scale*log(1-u1) < 0
+    if not 0.0 <= u1 < 1.0:
+        return None
+    u1 = gen.offset_ulps(u1, r.randint(-4, 4))
+    if not 0.0 <= u1 < 1.0:
+        return None
+    us = [u1, u2, 0.0, 0.0] + [r.u01() for _ in range(4 * 30)]
+    return "LaplaceBoundedDomain", cfg, value, {"uniforms": us}
+
+
 def s_bounded(ctx):
     r = ctx.fork("direct")
     n = ctx.budget(1200, 50000)
-    cases = [(m, dict(c, dk="fixed"), v, s) for m, c, v, s in FIXED_DIRECT]
+    cases = [(m, dict(c, dk="fixed"), v, s) for m, c, v, s in FIXED_DIRECT + FIXED_DIRECT_LANDING]
+    rl = ctx.fork("landing")
+    for _ in range(n // 2):
+        c = gen_landing(rl)
+        if c:
+            cases.append(c)
     for mech in REAL_MECHS + INT_MECHS:
         for i in range(n if mech != "LaplaceBoundedDomain" else n // 2):
             if mech in INT_MECHS:
@@ -750,6 +855,8 @@ def s_bounded(ctx):
             else:
                 cfg = gen_real_cfg(r, mech)
                 _, value = gen_real_value(r, cfg)
+            if r.chance(0.25):
+                cfg["eps"] = gen_eps_wide(r)         # incl. huge finite epsilons (500 ... 1.7e308)
             m = r.u01()
             if m < 0.75 or mech == "LaplaceBoundedDomain":
                 spec = {"seed": r.randint(0, 2 ** 31 - 2)}
@@ -828,34 +935,166 @@ def sel_case(r):
             "A": A, "seed": seed}
 
 
+EXTREME = [0.0, ONE_M, 0.5, 2.0 ** -53, 1.0 / 3]
+
+
+def gen_eps_wide(r):
+    """epsilon for the direct streams: the property's range [1e-4, inf] including huge finite values"""
+    m = r.u01()
+    if m < 0.55:
+        return gen_eps(r)
+    if m < 0.75:
+        return r.choice([500.0, 709.0, 710.0, 745.0, 1000.0, r.loguniform(500.0, 1e6), r.loguniform(1e6, 1e18)])
+    return r.choice([1e19, 1e20, 1e50, 1e100, 1e300, 1e308, 1.7e308, r.loguniform(1e19, 1e300)])
+
+
+def gen_prefix(r, n):
+    """uniform extremes at EVERY draw position: each position is 0.0, 1-2^-53, 1/2, 2^-53, 1/3 or random"""
+    m = r.u01()
+    if m < 0.15:
+        return [0.0] * n
+    if m < 0.25:
+        return [ONE_M] * n
+    return [r.choice(EXTREME) if r.chance(0.6) else r.u01() for _ in range(n)]
+
+
+def multidraw_case(r):
+    m = r.u01()
+    seed = r.randint(0, 2 ** 31 - 2)
+    eps = gen_eps_wide(r)
+    sens = r.choice([0.0, 1.0, 1.0, r.loguniform(1e-3, 1e3)])
+    if m < 0.4:
+        # PermuteAndFlip: index draw, then the coins of bernoulli_neg_exp (gamma = 0 for every top candidate, integer gammas
+        # for utility gaps that are multiples of sens/eps-scale), extremes at every position
+        k = r.randint(1, 5)
+        unit = (2 * sens / eps) if (sens > 0 and math.isfinite(eps) and eps < 1e18) else 1.0
+        top = r.choice([0.0, 1.0, 5.0])
+        util = [top - unit * r.choice([0, 0, 1, 2, 3, 0.5, r.uniform(0, 4), 1e6 * r.u01()]) for _ in range(k)]
+        util[r.randint(0, k - 1)] = top
+        return {"mech": "PermuteAndFlip", "eps": eps, "sens": sens, "utility": util, "candidates": r.choice([None, ["c%d" % i for i in range(k)]]),
+                "monotonic": r.chance(0.5), "seed": seed, "prefix": gen_prefix(r, r.randint(1, 10))}
+    if m < 0.75:
+        # Exponential with zero-measure candidates (top / all but one) and utility gaps up to 1e6 * sens / eps
+        k = r.randint(2, 6)
+        unit = (sens / eps) if (sens > 0 and math.isfinite(eps)) else 1.0
+        util = [r.choice([0.0, 1.0, r.uniform(0, 10)]) for _ in range(k)]
+        j = r.randint(0, k - 1)
+        util[j] = max(util) + unit * r.choice([1.0, 100.0, 1e4, 1e6, 5000.0]) * r.uniform(0.5, 1.0)
+        q = r.u01()
+        if q < 0.4:
+            measure = [1.0] * k
+            measure[j] = 0.0                                    # the top candidate has measure 0
+        elif q < 0.7:
+            measure = [0.0] * k
+            measure[r.randint(0, k - 1)] = r.choice([1.0, 0.5, 3.0])      # all but one
+        elif q < 0.85:
+            measure = [r.choice([0.0, 1.0, r.uniform(0, 3)]) for _ in range(k)]
+            if not any(x > 0 for x in measure):
+                measure[0] = 1.0
+        else:
+            measure = None
+        return {"mech": "Exponential", "eps": eps, "sens": sens, "utility": util, "measure": measure,
+                "candidates": r.choice([None, ["c%d" % i for i in range(k)]]), "monotonic": r.chance(0.3), "seed": seed,
+                "u": r.choice([None, 0.0, ONE_M, 0.5, None])}
+    if m < 0.9:
+        return {"mech": "bernoulli_neg_exp", "eps": 1.0, "gamma": r.choice([0, 0.0, 1, 2, 3, 7, 0.5, 1.0, 1e-300, 2.0 ** -53, 700.0, r.uniform(0, 5)]),
+                "seed": seed, "prefix": gen_prefix(r, r.randint(1, 8))}
+    # every other mechanism of the list at huge epsilon
+    c = sel_case(r)
+    c["eps"] = eps if c["mech"] != "Bingham" or r.chance(0.5) else c["eps"]
+    return c
+
+
+def bern_direct(case):
+    """bernoulli_neg_exp(gamma) on a stream with extremes at every position: returns 0/1; the coin exp(-0) = 1 is certain"""
+    from diffprivlib.mechanisms.base import bernoulli_neg_exp
+    g = case["gamma"]
+    kind, out = run_timed(lambda: bernoulli_neg_exp(g, PrefixRandom(case["prefix"], case["seed"])))
+    desc = f"bernoulli_neg_exp({g!r}) on the uniform stream {case['prefix']} (then pseudo-random)"
+    if kind != "ok":
+        return ("C12:bernoulli_neg_exp:" + ("hang" if kind == "hang" else "raises"), f"{desc}: {kind} {out!r}")
+    if out not in (0, 1):
+        return ("C12:bernoulli_neg_exp:not-a-bit", f"{desc} returned {out!r}")
+    if g == 0 and out != 1:
+        return ("C12:bernoulli_neg_exp:zero-uniform-at-certain-coin",
+                f"{desc} returned 0 although exp(-0) = 1: `rng.random() <= gamma / counter` is true for the uniform 0.0")
+    return None
+
+
 def sel_direct(case):
     name = case["mech"]
     eps = case["eps"]
     rng = seams.ScriptedSystemRandom(uniforms=[case["u"]], cycle=True) if case.get("u") is not None else int(case["seed"])
-    desc = f"{name}({ {k: v for k, v in case.items() if k not in ('A', 'leaves')} })"
+    desc = f"{name}({ {k: v for k, v in case.items() if k not in ('A', 'leaves', 'witness')} })"
+    if name == "bernoulli_neg_exp":
+        return bern_direct(case)
     if name in ("Exponential", "PermuteAndFlip"):
+        v = _sel_expo(case, name, eps, rng, desc)
+        if v and name == "PermuteAndFlip" and case.get("prefix") and 0.0 in case["prefix"]:
+            # does the failure hinge on a uniform of exactly 0.0 (the certain coin of bernoulli_neg_exp comes up 0)?
+            alt = dict(case, prefix=[5e-324 if u == 0.0 else u for u in case["prefix"]])
+            if _sel_expo(alt, name, eps, rng, desc) is None:
+                return ("C12:bernoulli_neg_exp:zero-uniform-at-certain-coin", v[1] + "  [passes when the 0.0 draws are replaced by 5e-324]")
+        return v
+    return _sel_rest(case, name, eps, rng, desc)
+
+
+def zero_measure_nan_region(case):
+    """the known region: every arg-max-utility candidate has measure 0 AND the weight of every positive-measure candidate
+    underflows to 0 (or the scale is infinite), so the normaliser is 0 and the probabilities are 0/0"""
+    ms = case.get("measure")
+    if not ms:
+        return False
+    ut = case["utility"]
+    top = max(ut)
+    if any(m > 0 and u == top for u, m in zip(ut, ms)):
+        return False
+    eps, sens = case["eps"], case["sens"]
+    if sens == 0 or eps == INF or not sens / eps > 0:
+        return True
+    scale = eps / sens / (2 - bool(case["monotonic"]))
+    if not math.isfinite(scale):
+        return True
+    with np.errstate(all="ignore"):
+        return all(float(np.exp(scale * (u - top))) * m == 0 for u, m in zip(ut, ms))
+
+
+def _sel_expo(case, name, eps, rng, desc):
         if name == "PermuteAndFlip":
-            rng = int(case["seed"])       # constant streams (probability 0) make its Bernoulli sub-sampler loop: seeded only
+            rng = PrefixRandom(case["prefix"], case["seed"]) if case.get("prefix") is not None else int(case["seed"])
+        holder = {}
+
         def call():
+            kw = {"measure": list(case["measure"])} if name == "Exponential" and case.get("measure") else {}
             m = getattr(MECH, name)(epsilon=eps, sensitivity=case["sens"], utility=list(case["utility"]), monotonic=case["monotonic"],
-                                    candidates=case["candidates"], random_state=rng)
+                                    candidates=case["candidates"], random_state=rng, **kw)
+            holder["p"] = np.asarray(m._probabilities, dtype=float)
             return m.randomise()
         kind, out = run_timed(call)
         if kind != "ok":
             if kind == "exc" and isinstance(out, ValueError) and eps == 0:
                 return None
+            if name == "Exponential" and kind == "exc" and "p" in holder and np.isnan(holder["p"]).all() and zero_measure_nan_region(case):
+                return ("C12:Exponential:zero-measure-top-candidate:nan-probabilities",
+                        f"{desc}: probabilities {holder['p'].tolist()}, randomise raises {type(out).__name__}")
             return (f"C12:{name}:{'hang' if kind == 'hang' else 'raises'}", f"{desc}: {kind} {out!r}")
         cands = case["candidates"] if case["candidates"] else list(range(len(case["utility"])))
         if not any(out is c or out == c for c in cands) or isinstance(out, bool):
             return (f"C12:{name}:not-a-candidate", f"{desc} returned {out!r}, not one of {cands}")
         if case["candidates"] is None and not isinstance(out, (int, np.integer)):
             return (f"C12:{name}:not-a-candidate", f"{desc} returned index {out!r} of type {type(out).__name__}")
+        ms = case.get("measure") or [1.0] * len(cands)
+        if ms[cands.index(out)] == 0:
+            return (f"C12:{name}:zero-measure-selected", f"{desc} returned {out!r}, a candidate of measure 0")
         if eps == INF or case["sens"] == 0:
             idx = cands.index(out)
-            if not np.isclose(case["utility"][idx], max(case["utility"])):
+            if not np.isclose(case["utility"][idx], max(u for u, m_ in zip(case["utility"], ms) if m_ > 0)):
                 return (f"C12:{name}:degenerate" + ("-u0" if case.get("u") == 0.0 else "-umax" if case.get("u") == ONE_M else ""),
                         f"{desc} returned {out!r} whose utility {case['utility'][idx]} is not the maximum")
         return None
+
+
+def _sel_rest(case, name, eps, rng, desc):
     if name in ("ExponentialCategorical", "ExponentialHierarchical"):
         def call():
             if name == "ExponentialCategorical":
@@ -885,18 +1124,31 @@ def sel_direct(case):
             return ("C12:Binary:degenerate", f"{desc} with epsilon=inf returned {out!r} instead of the input")
         return None
     if name == "Bingham":
-        A = np.array(case["A"])
-        S = A.T @ A
+        if "S" in case:
+            S = np.array(case["S"], dtype=float)
+        else:
+            A = np.array(case["A"])
+            S = A.T @ A
         def call():
             return MECH.Bingham(epsilon=eps, sensitivity=case["sens"], random_state=int(case["seed"])).randomise(S)
-        kind, out = run_timed(call, 20.0)
+        huge = math.isfinite(eps) and eps >= 1e19
+        if huge and HANGS.get("Bingham:huge", 0) >= 2 and not case.get("witness"):
+            return None                      # the region is known to hang: two observations per run are enough (each costs seconds)
+        kind, out = run_timed(call, 3.0 if huge else 20.0)
         if kind != "ok":
+            if huge:
+                # exp() over/underflows in the acceptance ratio (probability 0 / NaN): the rejection loop never accepts
+                HANGS["Bingham:huge"] = HANGS.get("Bingham:huge", 0) + (kind == "hang")
+                return ("C12:Bingham:huge-finite-epsilon:" + ("hang" if kind == "hang" else "raises"),
+                        f"{desc}: " + ("did not return within 3 s" if kind == "hang" else f"raised {out!r}"))
             return ("C12:Bingham:" + ("hang" if kind == "hang" else "raises"), f"{desc}: {kind} {out!r}")
         v = np.asarray(out, dtype=float).ravel()
         if v.shape[0] != S.shape[0] or not abs(float(np.linalg.norm(v)) - 1.0) <= 1e-9:
             return ("C12:Bingham:not-unit", f"{desc} returned a vector of norm {float(np.linalg.norm(v))!r} / shape {np.shape(out)}")
         if eps == INF or case["sens"] == 0:
             w, V = np.linalg.eigh(S)
+            if len(w) > 1 and not (np.sort(w)[-1] - np.sort(w)[-2]) > 1e-6 * max(1.0, abs(w).max()):
+                return None                  # (nearly) degenerate top eigenvalue: the top eigenvector is not unique
             top = V[:, w.argmax()]
             if S.shape[0] > 1 and not abs(abs(float(top @ v)) - 1.0) <= 1e-9:
                 return ("C12:Bingham:degenerate", f"{desc} with no noise did not return the top eigenvector")
@@ -917,15 +1169,36 @@ FIXED_SEL = [
 ]
 
 
+FIXED_SEL += [
+    # the three open findings (known_findings.json): their concrete calls, plus neighbours that must keep working
+    {"mech": "PermuteAndFlip", "eps": 1.0, "sens": 1.0, "utility": [1.0], "candidates": None, "monotonic": False, "seed": 0, "prefix": [0.0, 0.0, 0.7]},
+    {"mech": "PermuteAndFlip", "eps": INF, "sens": 1.0, "utility": [1.0, 0.0], "candidates": None, "monotonic": False, "seed": 0,
+     "prefix": [0.0, 0.0, 0.7, 0.0, 0.9]},
+    {"mech": "PermuteAndFlip", "eps": 1.0, "sens": 1.0, "utility": [1.0], "candidates": None, "monotonic": False, "seed": 0, "prefix": [0.0, 2.0 ** -53, 0.7]},
+    {"mech": "bernoulli_neg_exp", "eps": 1.0, "gamma": 0, "seed": 0, "prefix": [0.0, 0.7]},
+    {"mech": "Exponential", "eps": 1.0, "sens": 1.0, "utility": [5000.0, 1.0, 0.0], "measure": [0.0, 1.0, 1.0], "candidates": None,
+     "monotonic": False, "seed": 0, "u": None},
+    {"mech": "Exponential", "eps": INF, "sens": 1.0, "utility": [5.0, 1.0, 0.0], "measure": [0.0, 1.0, 1.0], "candidates": None,
+     "monotonic": False, "seed": 0, "u": None},
+    {"mech": "Exponential", "eps": 1.0, "sens": 1.0, "utility": [50.0, 1.0, 0.0], "measure": [0.0, 1.0, 1.0], "candidates": None,
+     "monotonic": False, "seed": 0, "u": None},
+    {"mech": "Bingham", "eps": 1e100, "sens": 1.0, "S": [[2.0, 0.5], [0.5, 1.0]], "seed": 1},
+    {"mech": "Bingham", "eps": 1.7e308, "sens": 1.0, "S": [[2.0, 0.5], [0.5, 1.0]], "seed": 1},
+    {"mech": "Bingham", "eps": 1e18, "sens": 1.0, "S": [[2.0, 0.5], [0.5, 1.0]], "seed": 1},
+    {"mech": "Binary", "eps": 1000.0, "value": "no", "seed": 0, "u": None},
+    {"mech": "Binary", "eps": 1e300, "value": "yes", "seed": 0, "u": 0.5},
+]
+
+
 def s_selection(ctx):
     r = ctx.fork("selection")
     n = ctx.budget(1500, 60000)
     for i in range(n):
-        case = FIXED_SEL[i] if i < len(FIXED_SEL) else sel_case(r)
+        case = FIXED_SEL[i] if i < len(FIXED_SEL) else (sel_case(r) if i % 2 else multidraw_case(r))
         v = sel_direct(case)
         if v:
             ctx.violation(v[0], v[1], {"kind": "selection", "case": case})
-        ctx.case((case["mech"], case["eps"] == INF, case.get("u"), i % 50))
+        ctx.case((case["mech"], case["eps"] == INF, case["eps"] >= 1e19, case.get("u"), tuple(case.get("prefix") or ())[:3], i % 50))
         ctx.count("direct:" + case["mech"])
 
 
@@ -950,6 +1223,7 @@ def _check(ctx):
     k_geometric(ctx, r, "GeometricFolded", n, lines, todo)
     k_snapping(ctx, r, n, lines, todo)
     k_selection(ctx, r, n, lines, todo)
+    k_bernoulli(ctx, r, n // 2, lines, todo)
     # direct sweeps first (they do not need Lean), so that a failing input is reported even if the driver is unavailable
     s_bounded(ctx)
     s_snapping_infinite(ctx)
@@ -965,6 +1239,8 @@ def _check(ctx):
             ok = cmp_geom(ctx, item, line)
         elif unit == "snap":
             ok = cmp_snap(ctx, item, line)
+        elif unit == "bern":
+            ok = cmp_bern(ctx, item, line)
         elif unit in ("expsel", "catsel", "binary"):
             ok = cmp_selection(ctx, item, line)
         else:
@@ -1010,4 +1286,41 @@ class Ctx0:
         pass
 
 
-WITNESSES = {}
+# ------------------------------------------------------------------------------------------- open known findings
+W_BERN = {"mech": "PermuteAndFlip", "eps": 1.0, "sens": 1.0, "utility": [1.0], "candidates": None, "monotonic": False, "seed": 0,
+          "prefix": [0.0, 0.0, 0.7]}
+W_EXPO = {"mech": "Exponential", "eps": 1.0, "sens": 1.0, "utility": [5000.0, 1.0, 0.0], "measure": [0.0, 1.0, 1.0], "candidates": None,
+          "monotonic": False, "seed": 0, "u": None}
+W_BING = {"witness": True, "mech": "Bingham", "eps": 1e100, "sens": 1.0, "S": [[2.0, 0.5], [0.5, 1.0]], "seed": 1}
+W_BING2 = {"witness": True, "mech": "Bingham", "eps": 1.7e308, "sens": 1.0, "S": [[2.0, 0.5], [0.5, 1.0]], "seed": 1}
+WHAT = {
+    "C12:bernoulli_neg_exp:zero-uniform-at-certain-coin":
+        "PermuteAndFlip(epsilon=1, sensitivity=1, utility=[1.0]) with the uniform stream [0.0 (index), 0.0 (coin), 0.7] raises "
+        "RuntimeError('No value to return'): bernoulli_neg_exp(0) tests `rng.random() <= gamma / counter`, true for the uniform 0.0, "
+        "so the probability-1 coin comes up 0 (bernoulli_neg_exp(0) on [0.0, 0.7] returns 0)",
+    "C12:Exponential:zero-measure-top-candidate:nan-probabilities":
+        "Exponential(epsilon=1, sensitivity=1, utility=[5000.0, 1.0, 0.0], measure=[0.0, 1.0, 1.0]).randomise() raises RuntimeError on "
+        "every draw: _find_probabilities shifts by the maximum over ALL candidates, the positive-measure weights underflow to 0 and "
+        "0/0 gives probabilities [nan, nan, nan] (same with epsilon=inf or sensitivity=0 whenever the top candidate has measure 0)",
+    "C12:Bingham:huge-finite-epsilon:hang":
+        "Bingham(epsilon=1e100, sensitivity=1, random_state=1).randomise([[2, .5], [.5, 1]]) does not return (3 s observed; epsilon <= 1e18 "
+        "and epsilon = inf return): exp() over/underflows in the acceptance ratio, so the rejection loop never accepts",
+    "C12:Bingham:huge-finite-epsilon:raises":
+        "Bingham(epsilon=1.7e308, sensitivity=1, random_state=1).randomise([[2, .5], [.5, 1]]) raises LinAlgError('SVD did not converge'): "
+        "epsilon * (lambda_max I - A) / 4 overflows to inf",
+}
+
+
+def _witness(case, sig):
+    def w(ctx):
+        v = sel_direct(case)
+        return (v is not None and v[0] == sig), WHAT[sig]
+    return w
+
+
+WITNESSES = {
+    "C12:bernoulli_neg_exp:zero-uniform-at-certain-coin": _witness(W_BERN, "C12:bernoulli_neg_exp:zero-uniform-at-certain-coin"),
+    "C12:Exponential:zero-measure-top-candidate:nan-probabilities": _witness(W_EXPO, "C12:Exponential:zero-measure-top-candidate:nan-probabilities"),
+    "C12:Bingham:huge-finite-epsilon:hang": _witness(W_BING, "C12:Bingham:huge-finite-epsilon:hang"),
+    "C12:Bingham:huge-finite-epsilon:raises": _witness(W_BING2, "C12:Bingham:huge-finite-epsilon:raises"),
+}
